@@ -20,7 +20,8 @@ CLEAN_CONSUMER = re.compile(r'(^std::iter::Iterator::|as std::iter::Iterator>::)
 NEXT = re.compile(r'as std::iter::Iterator>::next$|^std::iter::Iterator::next$')
 UNORDERED_TY = re.compile(r'Hash(Set|Map)|BTree(Set|Map)')
 
-ENTROPY = re.compile(r'^std::time::|^std::env::(var|var_os|vars|vars_os|temp_dir|current_dir|home_dir|current_exe)$|std::thread::current$|std::process::id$|RandomState::new$|hash::DefaultHasher|std::thread::spawn|<.* as std::fmt::Pointer>::fmt$|fmt::rt::Argument::<.*>::new_pointer$')
+ENTROPY = re.compile(r'^std::time::|^std::env::(var|var_os|vars|vars_os|temp_dir|current_dir|home_dir|current_exe)$|std::thread::current$|std::process::id$|RandomState::new$|hash::DefaultHasher|std::thread::spawn|<.* as std::fmt::Pointer>::fmt$|fmt::rt::Argument::<.*>::new_pointer$'
+                     r'|sync::atomic::Atomic\w*(::<[^>]*>)?::(fetch_\w+|store|swap|compare_exchange\w*|compare_and_swap|load|get_mut|into_inner)$|thread::local::LocalKey<.*>::(with|set|get|take|replace|with_borrow\w*)$|sync::(Mutex|RwLock)<.*>::(lock|write|read|try_lock|try_write|try_read|get_mut)$|cell::(Cell|RefCell)<.*>::(set|replace|swap|take|borrow_mut|try_borrow_mut)$')
 
 # frozen exception table: (function, container type regex) -> reason
 COMMUTATIVE_LOOPS = {
@@ -149,6 +150,7 @@ def analyse_fn(crate, fn, rep, rid):
         T.add(('local', t['dest']['local']), (n, fn.callee_name(t), t['callee'].get('args', '')[:120], t['line']))
     site_state = {n: [] for n in range(len(sites))}
     reported = set()
+    numbered = set()     # locals holding a tainted iterator that went through enumerate()/zip()
 
     def report(src, kind, msg, line):
         if quiet:
@@ -230,15 +232,24 @@ def analyse_fn(crate, fn, rep, rid):
                         changed = True
                         site_state[src[0]].append('sorted(%s)' % name.split('::')[-1])
                 continue
+            arg_locals = {op_place(a)['local'] for a, _e in targs if op_place(a) is not None}
             if COLLECT.search(name):
                 dty = fn.locals[t['dest']['local']]
                 if UNORDERED_TY.search(dty.split('<')[0]):
+                    if arg_locals & numbered:
+                        # positions handed out by enumerate()/zip(counter) turn the iteration order into data
+                        report(src, 'numbered', 'is numbered by enumerate()/zip() before being collected: the numbers depend on the hash order', t['line'])
+                        continue
                     site_state[src[0]].append('re-hashed into ' + dty.split('<')[0].split('::')[-1])
                     continue
                 if T.add(('local', t['dest']['local']), src):
                     changed = True
                 continue
             if ADAPTOR.search(name):
+                if re.search(r'::(enumerate|zip)$', name) or (arg_locals & numbered):
+                    if t['dest']['local'] not in numbered:
+                        numbered.add(t['dest']['local'])
+                        changed = True
                 if T.add(('local', t['dest']['local']), src):
                     changed = True
                 continue
@@ -331,7 +342,7 @@ def verify_commutative_loop(crate, fn, bi, t, rep, rid, src):
 
 
 def rule_entropy(rep, crates):
-    rid = rep.rule('M-C16b', 'no other entropy source is called in logos-codegen / logos-cli / logos-derive: time, environment, thread or process ids, RandomState/DefaultHasher, pointer formatting or pointer-to-integer casts', floor=3)
+    rid = rep.rule('M-C16b', 'no other entropy source is called in logos-codegen / logos-cli / logos-derive: time, environment, thread or process ids, RandomState/DefaultHasher, pointer formatting or pointer-to-integer casts, and no state that outlives one expansion (atomics, mutexes, thread-locals, interior-mutable cells: a counter shared between expansions makes the output depend on what was expanded before; LazyLock initialisation of constants is not matched)', floor=3)
     for cn, crate in crates:
         n = 0
         for fn in crate.fns.values():
